@@ -60,6 +60,18 @@ var preludeDefs = map[string]string{
 	"nlmul":          "(declare-fun nlmul (Int Int) Int)",
 	"shared_builtin": "(declare-fun shared_builtin (Int) Bool)",
 	"bstr":           "(declare-fun bstr (Int Int Int) Str)",
+	"str_line":       "(declare-fun str_line (Str Int) Str)",
+	"str_linecount":  "(declare-fun str_linecount (Str) Int)",
+	"fn_math_Pow":    "(declare-fun fn_math_Pow (Flt Flt) Flt)",
+	"fn_math_Mod":    "(declare-fun fn_math_Mod (Flt Flt) Flt)",
+	"fn_math_Max":    "(declare-fun fn_math_Max (Flt Flt) Flt)",
+	"fn_math_Min":    "(declare-fun fn_math_Min (Flt Flt) Flt)",
+	"fn_math_Floor":  "(declare-fun fn_math_Floor (Flt) Flt)",
+	"fn_math_Ceil":   "(declare-fun fn_math_Ceil (Flt) Flt)",
+	"fn_math_Round":  "(declare-fun fn_math_Round (Flt) Flt)",
+	"fn_math_Abs":    "(declare-fun fn_math_Abs (Flt) Flt)",
+	"fn_math_Trunc":  "(declare-fun fn_math_Trunc (Flt) Flt)",
+	"fn_math_Sqrt":   "(declare-fun fn_math_Sqrt (Flt) Flt)",
 	"json_doc":       "(declare-fun json_doc (Int Int) Int)",
 	"json_int":       "(declare-fun json_int (Int Int) Int)",
 	"json_flt":       "(declare-fun json_flt (Int Int) Flt)",
